@@ -54,6 +54,10 @@ Definition slice {A} (l : list A) (a b : Z) : list A :=               (* l[a:b] 
 Fixpoint map2 {A B C} (f : A -> B -> C) (a : list A) (b : list B) : list C :=
   match a, b with x :: r, y :: s => f x y :: map2 f r s | _, _ => [] end.
 
+Fixpoint zmem (x : Z) (l : list Z) : bool := match l with [] => false | y :: t => (x =? y)%Z || zmem x t end.
+Fixpoint zdedupe (l : list Z) : list Z :=
+  match l with [] => [] | x :: t => if zmem x t then zdedupe t else x :: zdedupe t end.
+
 Definition zsum (l : list Z) : Z := fold_right Z.add 0%Z l.
 
 Section Model.
@@ -308,7 +312,7 @@ Definition get_rgrid_size (cfg : pcfg) (tabs : ptables) (preset : string) (atnum
 
 (* ---- the decidable build condition of one tabulated (preset, atnum) *)
 Definition resolvableb (m : method) (sizes : list Z) : bool :=
-  match convert m sizes with Some _ => true | None => false end.
+  forallb (fun s => match resolve_size m s with Some _ => true | None => false end) (zdedupe sizes).
 Definition preset_okb (cfg : pcfg) (tabs : ptables) (m : method) (preset : string) (atnum : Z) (row : prow) : bool :=
   if count_branch cfg preset atnum then
     match sector_sizes row with
